@@ -179,11 +179,12 @@ class SymCtx(BaseCtx):
         if hi - lo <= 0:
             raise ValueError("low >= high")
         v = lo + self.E.fork(hi - lo, "randint")
-        self.rng_log.append(("randint", v))
+        self.rng_log.append(("randint", v, lo, hi))
         return v
 
     def rng_uniform(self, a, b):
         u = self.E.fresh_real("uniform")
+        self.rng_log.append(("uniform", u))
         # documented contract: a value in [a,b] (end points included, and a>b tolerated like numpy)
         za, zb = toz(a), toz(b)
         self.E.assume(z3.Or(z3.And(u.e >= za, u.e <= zb), z3.And(u.e <= za, u.e >= zb)))
@@ -206,7 +207,9 @@ class SymCtx(BaseCtx):
         if abs(float(tot) - 1.0) > math.sqrt(np.finfo(np.float64).eps):
             raise ValueError("probabilities do not sum to 1")
         allowed = [i for i in range(n) if p[i] > 0]
-        return items[self.E.fork(n, "choice", allowed)]
+        k = self.E.fork(n, "choice", allowed)
+        self.rng_log.append(("choice", k, p))
+        return items[k]
 
     def rng_normal(self, loc, scale):
         return self.E.fresh_real("normal")
@@ -497,7 +500,7 @@ class ConcCtx(BaseCtx):
 
     def rng_randint(self, lo, hi):
         v = lo + int(self._next("choice"))
-        self.rng_log.append(("randint", v))
+        self.rng_log.append(("randint", v, lo, hi))
         return v
 
     def rng_uniform(self, a, b):
@@ -507,6 +510,7 @@ class ConcCtx(BaseCtx):
             u = lo_
         if u > hi_:
             u = hi_
+        self.rng_log.append(("uniform", u))
         return u
 
     def rng_choice(self, a, p):
@@ -522,7 +526,9 @@ class ConcCtx(BaseCtx):
                 raise ValueError("probabilities are not non-negative")
             if abs(float(sum(p)) - 1.0) > math.sqrt(np.finfo(np.float64).eps):
                 raise ValueError("probabilities do not sum to 1")
-        return items[int(self._next("choice"))]
+        k = int(self._next("choice"))
+        self.rng_log.append(("choice", k, p))
+        return items[k]
 
     def rng_normal(self, loc, scale):
         return self._num(self._next("real"))
